@@ -13,10 +13,11 @@ def _streams(prop, quick_random, thorough_random):
     def f(tier):
         n = quick_random if tier == "quick" else thorough_random
         out = [("life" + prop, ["-tier", tier, "-n", str(n)]), ("lifesock" + prop, ["-tier", tier])]
-        if prop == "14" and tier == "thorough":
+        if prop == "14":
             # probabilistic schedule (Bind concurrent with DoListen's start-up), run in a child process; a hit is the
-            # known finding `bind-concurrent-with-serve-start-not-refused-shutdown-does-not-end-serving`; quick stays deterministic
-            out.append(("lifeprobe", ["-n", "300"]))
+            # known finding `bind-concurrent-with-serve-start-not-refused-shutdown-does-not-end-serving`
+            # (about one trial in three hits; the quick tier runs enough trials to show the finding on every run)
+            out.append(("lifeprobe", ["-n", "60" if tier == "quick" else "300"]))
         return out
     return f
 
